@@ -3,4 +3,555 @@ import Panoptica.Properties.C01Values
 import Panoptica.Properties.C03Unique
 import Panoptica.Properties.C11
 namespace Panoptica
+namespace Mirror
+open Panoptica.C11
+
+/-! ### a total preorder on `Score` that agrees with `Score.le` on exact scores -/
+
+def IsExact (x : Score) : Prop := ∃ q, x = .exact q
+
+/-- exact scores by value, every non-exact score above all of them -/
+def leT : Score → Score → Bool
+  | .exact a, .exact b => decide (a ≤ b)
+  | .exact _, _ => true
+  | _, .exact _ => false
+  | _, _ => true
+
+theorem leT_total (a b : Score) : leT a b = true ∨ leT b a = true := by
+  cases a <;> cases b <;> simp [leT]
+  exact Rat.le_total
+
+theorem leT_trans (a b c : Score) (hab : leT a b = true) (hbc : leT b c = true) : leT a c = true := by
+  cases a <;> cases b <;> cases c <;> simp_all [leT]
+  exact Rat.le_trans hab hbc
+
+theorem leT_exact {a b : Score} (ha : IsExact a) (hb : IsExact b) : Score.le a b = leT a b := by
+  obtain ⟨x, rfl⟩ := ha
+  obtain ⟨y, rfl⟩ := hb
+  rfl
+
+/-! ### the loop and the sort only see the Boolean results of `le` -/
+
+section congr
+variable {S : Type} (le1 le2 : S → S → Bool) (dec : Bool) (thr : S)
+
+theorem sortBest_congr (cs : List (Cand S))
+    (h : ∀ a ∈ cs, ∀ b ∈ cs, le1 a.score b.score = le2 a.score b.score) :
+    sortBest le1 dec cs = sortBest le2 dec cs := by
+  unfold sortBest
+  have := List.map_mergeSort
+    (r := fun (a b : Cand S) => if dec then le1 a.score b.score else le1 b.score a.score)
+    (s := fun (a b : Cand S) => if dec then le2 a.score b.score else le2 b.score a.score)
+    (f := id) (l := cs)
+    (by
+      intro a ha b hb
+      simp only [id]
+      rw [h a ha b hb, h b hb a ha])
+  simpa using this
+
+theorem naiveFold_congr (m2o : Bool) (cs : List (Cand S))
+    (h : ∀ c ∈ cs, beats le1 dec c.score thr = beats le2 dec c.score thr) (m : LMap) :
+    cs.foldl (naiveStep le1 dec thr m2o) m = cs.foldl (naiveStep le2 dec thr m2o) m := by
+  induction cs generalizing m with
+  | nil => rfl
+  | cons c cs ih =>
+    have hc : naiveStep le1 dec thr m2o m c = naiveStep le2 dec thr m2o m c := by
+      unfold naiveStep
+      rw [h c (List.mem_cons_self ..)]
+    rw [List.foldl_cons, List.foldl_cons, hc]
+    exact ih (fun c' hc' => h c' (List.mem_cons_of_mem _ hc')) _
+
+theorem naiveLoop_congr (m2o : Bool) (cs : List (Cand S))
+    (h : ∀ c ∈ cs, beats le1 dec c.score thr = beats le2 dec c.score thr) :
+    naiveLoop le1 dec thr m2o cs = naiveLoop le2 dec thr m2o cs :=
+  naiveFold_congr le1 le2 dec thr m2o cs h []
+
+theorem determined_congr (cs : List (Cand S))
+    (hle : ∀ a ∈ cs, ∀ b ∈ cs, le1 a.score b.score = le2 a.score b.score)
+    (hb : ∀ c ∈ cs, beats le1 dec c.score thr = beats le2 dec c.score thr)
+    (hd : C03.Determined le1 dec thr cs) : C03.Determined le2 dec thr cs where
+  keysNodup := hd.keysNodup
+  distinct := by
+    intro a ha b hb' hne hcomp h1 h2
+    rw [← hb a ha] at h1
+    rw [← hb b hb'] at h2
+    have := hd.distinct a ha b hb' hne hcomp h1 h2
+    simpa only [C03.strictlyBetterC, C03.betterEq, hle a ha b hb', hle b hb' a ha] using this
+
+end congr
+
+/-! ### `Determined` and `ValidMatching` under permutation and mirroring of the candidates -/
+
+section inv
+variable {S : Type} (le : S → S → Bool) (dec : Bool) (thr : S)
+
+def swapPair (e : Lab × Lab) : Lab × Lab := (e.2, e.1)
+
+theorem swapPair_swapPair (e : Lab × Lab) : swapPair (swapPair e) = e := rfl
+
+theorem mem_map_swapPair (M : List (Lab × Lab)) (a b : Lab) :
+    (a, b) ∈ M.map swapPair ↔ (b, a) ∈ M := by
+  rw [List.mem_map]
+  constructor
+  · rintro ⟨e, he, h⟩
+    have : e = (b, a) := by
+      have := congrArg swapPair h
+      rw [swapPair_swapPair] at this
+      exact this
+    rw [← this]; exact he
+  · intro h
+    exact ⟨(b, a), h, rfl⟩
+
+theorem determined_perm {cs cs2 : List (Cand S)} (hp : cs.Perm cs2)
+    (hd : C03.Determined le dec thr cs) : C03.Determined le dec thr cs2 where
+  keysNodup := (hp.map _).nodup_iff.1 hd.keysNodup
+  distinct := fun a ha b hb => hd.distinct a (hp.mem_iff.2 ha) b (hp.mem_iff.2 hb)
+
+theorem determined_swap {cs : List (Cand S)} (hd : C03.Determined le dec thr cs) :
+    C03.Determined le dec thr (cs.map swapCand) where
+  keysNodup := by
+    have h := hd.keysNodup
+    rw [List.map_map]
+    unfold List.Nodup at h ⊢
+    rw [List.pairwise_map] at h ⊢
+    refine h.imp ?_
+    intro a b hab heq
+    apply hab
+    simp only [Function.comp_apply, swapCand, Prod.mk.injEq] at heq ⊢
+    exact ⟨heq.2, heq.1⟩
+  distinct := by
+    intro a ha b hb hne hcomp h1 h2
+    obtain ⟨a0, ha0, rfl⟩ := List.mem_map.1 ha
+    obtain ⟨b0, hb0, rfl⟩ := List.mem_map.1 hb
+    have hne0 : (a0.pred, a0.ref) ≠ (b0.pred, b0.ref) := by
+      intro h
+      apply hne
+      simp only [swapCand, Prod.mk.injEq] at h ⊢
+      exact ⟨h.2, h.1⟩
+    have hcomp0 : C03.competes a0 b0 = true := by
+      simp only [C03.competes, swapCand, Bool.or_eq_true] at hcomp ⊢
+      exact hcomp.symm
+    exact hd.distinct a0 ha0 b0 hb0 hne0 hcomp0 h1 h2
+
+theorem valid_perm {cs cs2 : List (Cand S)} (hp : cs.Perm cs2) {M : List (Lab × Lab)}
+    (hM : C03.ValidMatching le dec thr cs M) : C03.ValidMatching le dec thr cs2 M where
+  sound := by
+    intro e he
+    obtain ⟨c, hc, h⟩ := hM.sound e he
+    exact ⟨c, hp.mem_iff.1 hc, h⟩
+  predsNodup := hM.predsNodup
+  refsNodup := hM.refsNodup
+  stable := by
+    intro c hc hb hnot
+    obtain ⟨c', hc', h⟩ := hM.stable c (hp.mem_iff.2 hc) hb hnot
+    exact ⟨c', hp.mem_iff.1 hc', h⟩
+
+theorem valid_swap {cs : List (Cand S)} {M : List (Lab × Lab)}
+    (hM : C03.ValidMatching le dec thr cs M) :
+    C03.ValidMatching le dec thr (cs.map swapCand) (M.map swapPair) where
+  sound := by
+    intro e he
+    obtain ⟨e0, he0, rfl⟩ := List.mem_map.1 he
+    obtain ⟨c, hc, h1, h2, hb⟩ := hM.sound e0 he0
+    exact ⟨swapCand c, List.mem_map.2 ⟨c, hc, rfl⟩, h2, h1, hb⟩
+  predsNodup := by
+    rw [List.map_map]
+    exact hM.refsNodup
+  refsNodup := by
+    rw [List.map_map]
+    exact hM.predsNodup
+  stable := by
+    intro c hc hb hnot
+    obtain ⟨c0, hc0, rfl⟩ := List.mem_map.1 hc
+    have hnot0 : (c0.pred, c0.ref) ∉ M := by
+      intro h
+      apply hnot
+      exact (mem_map_swapPair M _ _).2 h
+    obtain ⟨c', hc', hin, hcomp, hs⟩ := hM.stable c0 hc0 hb hnot0
+    refine ⟨swapCand c', List.mem_map.2 ⟨c', hc', rfl⟩, ?_, ?_, hs⟩
+    · exact (mem_map_swapPair M _ _).2 hin
+    · simp only [C03.competes, swapCand, Bool.or_eq_true] at hcomp ⊢
+      exact hcomp.symm
+
+end inv
+
+/-! ### the matcher on mirrored candidates -/
+
+theorem naive_mirror (dec : Bool) (thr : Score) (cs cs' : List (Cand Score))
+    (hex : ∀ c ∈ cs, IsExact c.score) (hthr : IsExact thr)
+    (hperm : cs'.Perm (cs.map swapCand))
+    (hdet : C03.Determined Score.le dec thr cs) :
+    ∀ p r, (p, r) ∈ naiveLoop Score.le dec thr false (sortBest Score.le dec cs) ↔
+      (r, p) ∈ naiveLoop Score.le dec thr false (sortBest Score.le dec cs') := by
+  have hex' : ∀ c ∈ cs', IsExact c.score := by
+    intro c hc
+    obtain ⟨c0, hc0, rfl⟩ := List.mem_map.1 (hperm.mem_iff.1 hc)
+    exact hex c0 hc0
+  -- agreement of the two orders on everything the matcher looks at
+  have hle : ∀ (l : List (Cand Score)), (∀ c ∈ l, IsExact c.score) →
+      ∀ a ∈ l, ∀ b ∈ l, Score.le a.score b.score = leT a.score b.score :=
+    fun l hl a ha b hb => leT_exact (hl a ha) (hl b hb)
+  have hbe : ∀ (l : List (Cand Score)), (∀ c ∈ l, IsExact c.score) →
+      ∀ c ∈ l, beats Score.le dec c.score thr = beats leT dec c.score thr := by
+    intro l hl c hc
+    unfold beats
+    rw [leT_exact (hl c hc) hthr, leT_exact hthr (hl c hc)]
+  have hrew : ∀ (l : List (Cand Score)), (∀ c ∈ l, IsExact c.score) →
+      naiveLoop Score.le dec thr false (sortBest Score.le dec l) =
+        naiveLoop leT dec thr false (sortBest leT dec l) := by
+    intro l hl
+    rw [sortBest_congr Score.le leT dec l (hle l hl)]
+    apply naiveLoop_congr
+    intro c hc
+    have hc' : c ∈ l := by
+      unfold sortBest at hc
+      exact List.mem_mergeSort.1 hc
+    exact hbe l hl c hc'
+  rw [hrew cs hex, hrew cs' hex']
+  have hdT : C03.Determined leT dec thr cs :=
+    determined_congr Score.le leT dec thr cs (hle cs hex) (hbe cs hex) hdet
+  have hdT' : C03.Determined leT dec thr cs' :=
+    determined_perm leT dec thr hperm.symm (determined_swap leT dec thr hdT)
+  have hv := C03.naive_valid leT dec thr leT_total leT_trans cs hdT
+  have hv' := valid_perm leT dec thr hperm.symm (valid_swap leT dec thr hv)
+  have hu := C03.unique leT dec thr leT_total leT_trans cs' hdT' _ hv'
+  intro p r
+  rw [← hu (r, p), mem_map_swapPair]
+
+/-! ### candidates of the mirrored pair -/
+
+theorem metricOn_swap (m : Metric) (hm : m = .IOU ∨ m = .DSC) (s : List Nat) (pred ref : Flat) (r p : Lab) :
+    metricOn m ⟨s, ref⟩ ⟨s, pred⟩ p [r] = metricOn m ⟨s, pred⟩ ⟨s, ref⟩ r [p] := by
+  rcases hm with rfl | rfl
+  · simp only [metricOn]; rw [iouSel_swap pred ref r p]
+  · simp only [metricOn]; rw [diceSel_swap pred ref r p]
+
+theorem metricOn_exact (m : Metric) (hm : m = .IOU ∨ m = .DSC) (pred ref : Arr) (r : Lab) (ps : List Lab) :
+    IsExact (metricOn m pred ref r ps) := by
+  rcases hm with rfl | rfl
+  · exact ⟨_, rfl⟩
+  · exact ⟨_, rfl⟩
+
+theorem nodup_map_on {α β : Type} (f : α → β) (l : List α)
+    (hinj : ∀ x ∈ l, ∀ y ∈ l, f x = f y → x = y) (h : l.Nodup) : (l.map f).Nodup := by
+  unfold List.Nodup at h ⊢
+  rw [List.pairwise_map]
+  exact h.imp_of_mem (fun ha hb hab heq => hab (hinj _ ha _ hb heq))
+
+theorem bounds_left {pred ref : Flat} (hb : ∀ x ∈ pred ++ ref, x < 2 ^ 32 - 1) :
+    ∀ x ∈ pred, x < 2 ^ 32 - 1 := fun x hx => hb x (List.mem_append_left _ hx)
+
+theorem bounds_right {pred ref : Flat} (hb : ∀ x ∈ pred ++ ref, x < 2 ^ 32 - 1) :
+    ∀ x ∈ ref, x < 2 ^ 32 - 1 := fun x hx => hb x (List.mem_append_right _ hx)
+
+theorem bounds_swap {pred ref : Flat} (hb : ∀ x ∈ pred ++ ref, x < 2 ^ 32 - 1) :
+    ∀ x ∈ ref ++ pred, x < 2 ^ 32 - 1 := by
+  intro x hx
+  apply hb x
+  rw [List.mem_append] at hx ⊢
+  exact hx.symm
+
+theorem overlapPairs_swap (pred ref : Flat) (hlen : pred.length = ref.length)
+    (hb : ∀ x ∈ pred ++ ref, x < 2 ^ 32 - 1) :
+    (overlapPairs ref pred (labelsOf pred)).Perm
+      ((overlapPairs pred ref (labelsOf ref)).map swapPair) := by
+  have hbp := bounds_left hb
+  have hbr := bounds_right hb
+  have hbp' : ∀ x ∈ pred, x < 2 ^ 32 := fun x hx => lt32_of_lt x (hbp x hx)
+  have hbr' : ∀ x ∈ ref, x < 2 ^ 32 := fun x hx => lt32_of_lt x (hbr x hx)
+  apply (List.perm_ext_iff_of_nodup ?_ ?_).2
+  · rintro ⟨a, b⟩
+    rw [mem_map_swapPair, C09.overlapPairs_spec ref pred hlen.symm hbr' hbp a b,
+      C09.overlapPairs_spec pred ref hlen hbp' hbr b a, overlaps_swap pred ref b a]
+    constructor
+    · rintro ⟨h1, h2, h3⟩; exact ⟨h2, h1, h3⟩
+    · rintro ⟨h1, h2, h3⟩; exact ⟨h2, h1, h3⟩
+  · exact C09.overlapPairs_nodup ref pred hlen.symm hbr' hbp
+  · apply nodup_map_on _ _ _ (C09.overlapPairs_nodup pred ref hlen hbp' hbr)
+    intro x _ y _ h
+    have := congrArg swapPair h
+    rwa [swapPair_swapPair, swapPair_swapPair] at this
+
+theorem scoredCands_swap_bdd (m : Metric) (hm : m = .IOU ∨ m = .DSC) (s : List Nat) (pred ref : Flat)
+    (hlen : pred.length = ref.length) (hb : ∀ x ∈ pred ++ ref, x < 2 ^ 32 - 1) :
+    (scoredCands m ⟨s, ref⟩ ⟨s, pred⟩).Perm ((scoredCands m ⟨s, pred⟩ ⟨s, ref⟩).map swapCand) := by
+  have hperm := overlapPairs_swap pred ref hlen hb
+  have hR : (scoredCands m ⟨s, pred⟩ ⟨s, ref⟩).map swapCand =
+      ((overlapPairs pred ref (labelsOf ref)).map swapPair).map
+        (fun (x : Lab × Lab) =>
+          ({ score := metricOn m ⟨s, ref⟩ ⟨s, pred⟩ x.1 [x.2], ref := x.1, pred := x.2 } : Cand Score)) := by
+    unfold scoredCands
+    rw [List.map_map, List.map_map]
+    apply List.map_congr_left
+    rintro ⟨r, p⟩ _
+    simp only [Function.comp_apply, swapCand, swapPair]
+    rw [metricOn_swap m hm s pred ref r p]
+  rw [hR]
+  exact hperm.map _
+
+/-! ### the label map of the mirrored pair -/
+
+theorem runMatcher_naive (mc : MatcherCfg) (m2o : Bool) (hk : mc.kind = .naive m2o) (pred ref : Arr) :
+    runMatcher mc pred ref = .ok (naiveLoop Score.le mc.metric.decreasing mc.thr m2o
+      (sortBest Score.le mc.metric.decreasing (scoredCands mc.metric pred ref))) := by
+  unfold runMatcher
+  rw [hk]
+  exact C03.naive_total Score.le mc.metric.decreasing mc.thr m2o _
+
+theorem runMatcher_swap_bdd (mc : MatcherCfg) (hk : mc.kind = .naive false)
+    (hm : mc.metric = .IOU ∨ mc.metric = .DSC)
+    (ht : ∃ q, mc.thr = .exact q) (s : List Nat) (pred ref : Flat) (hlen : pred.length = ref.length)
+    (hb : ∀ x ∈ pred ++ ref, x < 2 ^ 32 - 1)
+    (hdet : C03.Determined Score.le mc.metric.decreasing mc.thr (scoredCands mc.metric ⟨s, pred⟩ ⟨s, ref⟩))
+    (lm lm' : LMap) (h : runMatcher mc ⟨s, pred⟩ ⟨s, ref⟩ = .ok lm)
+    (h' : runMatcher mc ⟨s, ref⟩ ⟨s, pred⟩ = .ok lm') :
+    ∀ p r, (p, r) ∈ lm ↔ (r, p) ∈ lm' := by
+  rw [runMatcher_naive mc false hk] at h h'
+  cases h
+  cases h'
+  apply naive_mirror mc.metric.decreasing mc.thr _ _ ?_ ht
+    (scoredCands_swap_bdd mc.metric hm s pred ref hlen hb) hdet
+  intro c hc
+  rw [C01.scoredCands_score mc.metric _ _ c hc]
+  exact metricOn_exact mc.metric hm _ _ _ _
+
+/-! ### instance counts after one-to-one relabelling -/
+
+theorem labelsOf_map_length (f : Lab → Lab) (a : Flat)
+    (h0 : ∀ x ∈ a, (f x = 0 ↔ x = 0))
+    (hinj : ∀ x ∈ labelsOf a, ∀ y ∈ labelsOf a, f x = f y → x = y) :
+    (labelsOf (a.map f)).length = (labelsOf a).length := by
+  have hperm : (labelsOf (a.map f)).Perm ((labelsOf a).map f) := by
+    apply (List.perm_ext_iff_of_nodup (labelsOf_nodup _)
+      (nodup_map_on f _ hinj (labelsOf_nodup a))).2
+    intro x
+    rw [mem_labelsOf, List.mem_map, List.mem_map]
+    constructor
+    · rintro ⟨⟨y, hy, rfl⟩, hx0⟩
+      refine ⟨y, (mem_labelsOf a y).2 ⟨hy, ?_⟩, rfl⟩
+      intro hy0
+      exact hx0 ((h0 y hy).2 hy0)
+    · rintro ⟨y, hy, rfl⟩
+      obtain ⟨hya, hy0⟩ := (mem_labelsOf a y).1 hy
+      exact ⟨⟨y, hya, rfl⟩, fun h => hy0 ((h0 y hya).1 h)⟩
+  rw [hperm.length_eq, List.length_map]
+
+theorem rf_length {lm : LMap} {pred ref : Flat} (hg : Values.Good lm pred ref)
+    (hrefs : (lm.map (·.2)).Nodup) :
+    (labelsOf (pred.map (Values.rf lm pred ref))).length = (labelsOf pred).length := by
+  have hlm0 : ∀ e ∈ lm, e.2 ≠ 0 := fun e he => ((mem_labelsOf ref _).1 (hg.vals e he)).2
+  apply labelsOf_map_length
+  · intro x hx
+    constructor
+    · intro h
+      refine Classical.byContradiction fun hx0 => ?_
+      exact C04.foreground_kept lm (labelsOf ref) (labelsOf pred) hlm0 x
+        ((mem_labelsOf pred x).2 ⟨hx, hx0⟩) h
+    · intro h
+      rw [h]; exact Values.rf_zero hg
+  · intro x hx y hy h
+    rcases (C04.partition_preserved lm (labelsOf ref) (labelsOf pred) (labelsOf_nodup pred)
+      hg.vals x y hx hy).1 h with h | ⟨r, h1, h2⟩
+    · exact h
+    · have e1 := Values.lookup_some_mem lm x r h1
+      have e2 := Values.lookup_some_mem lm y r h2
+      have := inj_of_nodup_map (fun e : Lab × Lab => e.2) lm hrefs _ e1 _ e2 rfl
+      exact congrArg Prod.fst this
+
+theorem pipeline_nPred (cfg : Config) (bits : Nat) (s : List Nat) (pred ref : Flat) (mc : MatcherCfg)
+    (hin : cfg.input = .UNMATCHED) (hm : cfg.matcher = some mc)
+    (hlen : pred.length = ref.length) (hb : ∀ x ∈ pred ++ ref, x < 2 ^ 32 - 1)
+    (hp : labelsOf pred ≠ []) (hr : labelsOf ref ≠ [])
+    (out : PipeOut) (h : pipeline cfg bits ⟨s, pred⟩ ⟨s, ref⟩ = .ok out) :
+    ∃ lm, runMatcher mc ⟨s, pred⟩ ⟨s, ref⟩ = .ok lm ∧
+      out.nPred = (labelsOf (pred.map (Values.rf lm pred ref))).length := by
+  obtain ⟨lm, hrun⟩ := Values.runMatcher_total mc ⟨s, pred⟩ ⟨s, ref⟩
+  have hg : Values.Good lm pred ref := Values.runMatcher_good mc ⟨s, pred⟩ ⟨s, ref⟩ hlen hb lm hrun
+  refine ⟨lm, hrun, ?_⟩
+  have hn : ((labelsOf pred).length == 0 || (labelsOf ref).length == 0) = false := by
+    cases h1 : labelsOf pred with
+    | nil => exact absurd h1 hp
+    | cons _ _ =>
+      cases h2 : labelsOf ref with
+      | nil => exact absurd h2 hr
+      | cons _ _ => simp
+  unfold pipeline at h
+  rw [hin] at h
+  change matchPhase cfg bits ⟨s, pred⟩ ⟨s, ref⟩ (labelsOf pred).length (labelsOf ref).length = _ at h
+  rw [matchPhase_of_nonzero cfg bits ⟨s, pred⟩ ⟨s, ref⟩ _ _ mc lm hn hm hrun] at h
+  change evalPhase cfg ⟨s, mapInstanceLabels bits pred (labelsOf ref) (labelsOf pred) lm⟩ ⟨s, ref⟩ _ _ = _ at h
+  rw [C04.relabel_pointwise bits pred lm _ _ (Values.bounded_of_good hg hb)] at h
+  change evalPhase cfg ⟨s, pred.map (Values.rf lm pred ref)⟩ ⟨s, ref⟩ (some lm)
+    (some (pred.map (Values.rf lm pred ref))) = _ at h
+  rw [evalPhase_of_nonzero cfg ⟨s, pred.map (Values.rf lm pred ref)⟩ ⟨s, ref⟩ _ _
+    (Values.labelsOf_map_rf_ne_nil hg hp) hr] at h
+  cases h
+  rfl
+
+theorem nPred_core (cfg : Config) (mc : MatcherCfg) (hin : cfg.input = .UNMATCHED) (hm : cfg.matcher = some mc)
+    (hk : mc.kind = .naive false) (bits : Nat) (s : List Nat) (pred ref : Flat)
+    (hlen : pred.length = ref.length) (hb : ∀ x ∈ pred ++ ref, x < 2 ^ 32 - 1)
+    (hp : labelsOf pred ≠ []) (hr : labelsOf ref ≠ [])
+    (out : PipeOut) (h : pipeline cfg bits ⟨s, pred⟩ ⟨s, ref⟩ = .ok out) :
+    out.nPred = (labelsOf pred).length ∧ out.nRef = (labelsOf ref).length := by
+  obtain ⟨lm, hrun, hn⟩ := pipeline_nPred cfg bits s pred ref mc hin hm hlen hb hp hr out h
+  obtain ⟨lm2, hrun2, _, _, hnr, _⟩ := Values.pipeline_values cfg bits s pred ref mc hin hm hlen hb hp hr out h
+  refine ⟨?_, hnr⟩
+  have hg : Values.Good lm pred ref := Values.runMatcher_good mc ⟨s, pred⟩ ⟨s, ref⟩ hlen hb lm hrun
+  rw [hn]
+  apply rf_length hg
+  rw [runMatcher_naive mc false hk] at hrun
+  cases hrun
+  exact C03.injective Score.le mc.metric.decreasing mc.thr _
+
+/-! ### the per-instance lists -/
+
+theorem predsOf_single (lm : LMap) (hrefs : (lm.map (·.2)).Nodup) (p r : Lab) (h : (p, r) ∈ lm) :
+    lm.predsOf r = [p] := by
+  induction lm with
+  | nil => cases h
+  | cons e l ih =>
+    rw [List.map_cons, List.nodup_cons] at hrefs
+    unfold LMap.predsOf at ih ⊢
+    rcases List.mem_cons.1 h with h | h
+    · subst h
+      have hnone : l.filter (fun e => e.2 == r) = [] := by
+        rw [List.filter_eq_nil_iff]
+        intro e' he' heq
+        apply hrefs.1
+        have : e'.2 = r := by simpa using heq
+        exact List.mem_map.2 ⟨e', he', this⟩
+      rw [List.filter_cons]
+      simp only [beq_self_eq_true, if_true, hnone, List.map_cons, List.map_nil]
+    · have hne : (e.2 == r) = false := by
+        rw [beq_eq_false_iff_ne]
+        intro heq
+        apply hrefs.1
+        exact List.mem_map.2 ⟨(p, r), h, heq.symm⟩
+      rw [List.filter_cons, hne]
+      exact ih hrefs.2 h
+
+theorem passing_mirror (s : List Nat) (pred ref : Flat) (lm lm' : LMap) (ms : List Metric)
+    (hms : ∀ m ∈ ms, m = .IOU ∨ m = .DSC) (decision : Option (Metric × Score))
+    (hg : Values.Good lm pred ref)
+    (hrefs : (lm.map (·.2)).Nodup) (hrefs' : (lm'.map (·.2)).Nodup)
+    (hsw : ∀ p r, (p, r) ∈ lm ↔ (r, p) ∈ lm') :
+    ∃ g : Lab → Lab,
+      ((((labelsOf pred).filter (fun p => lm'.containsRef p)).filter (fun p =>
+          passesDecision Score.le decision (ms.map (fun m =>
+            (m, metricOn m ⟨s, ref⟩ ⟨s, pred⟩ p (lm'.predsOf p)))))).Perm
+        ((((labelsOf ref).filter (fun r => lm.containsRef r)).filter (fun r =>
+          passesDecision Score.le decision (ms.map (fun m =>
+            (m, metricOn m ⟨s, pred⟩ ⟨s, ref⟩ r (lm.predsOf r)))))).map g)) ∧
+      ∀ r ∈ (((labelsOf ref).filter (fun r => lm.containsRef r)).filter (fun r =>
+          passesDecision Score.le decision (ms.map (fun m =>
+            (m, metricOn m ⟨s, pred⟩ ⟨s, ref⟩ r (lm.predsOf r)))))), ∀ m ∈ ms,
+        metricOn m ⟨s, ref⟩ ⟨s, pred⟩ (g r) (lm'.predsOf (g r)) =
+          metricOn m ⟨s, pred⟩ ⟨s, ref⟩ r (lm.predsOf r) := by
+  let g : Lab → Lab := fun r => (lm.predsOf r).headD 0
+  have K : ∀ p r, (p, r) ∈ lm → g r = p ∧ (∀ m ∈ ms,
+      metricOn m ⟨s, ref⟩ ⟨s, pred⟩ p (lm'.predsOf p) =
+        metricOn m ⟨s, pred⟩ ⟨s, ref⟩ r (lm.predsOf r)) := by
+    intro p r h
+    have h1 := predsOf_single lm hrefs p r h
+    have h2 := predsOf_single lm' hrefs' r p ((hsw p r).1 h)
+    refine ⟨by simp only [g, h1, List.headD_cons], ?_⟩
+    intro m hm
+    rw [h1, h2]
+    exact metricOn_swap m (hms m hm) s pred ref r p
+  have D : ∀ p r, (p, r) ∈ lm →
+      ms.map (fun m => (m, metricOn m ⟨s, ref⟩ ⟨s, pred⟩ p (lm'.predsOf p))) =
+        ms.map (fun m => (m, metricOn m ⟨s, pred⟩ ⟨s, ref⟩ r (lm.predsOf r))) := by
+    intro p r h
+    apply List.map_congr_left
+    intro m hm
+    rw [(K p r h).2 m hm]
+  have hinj : ∀ x, lm.containsRef x = true → ∀ y, lm.containsRef y = true → g x = g y → x = y := by
+    intro x hx y hy hxy
+    obtain ⟨e, he, hex⟩ := (Values.containsRef_eq_true lm x).1 hx
+    obtain ⟨e', he', hey⟩ := (Values.containsRef_eq_true lm y).1 hy
+    have m1 : (e.1, x) ∈ lm := by rw [← hex]; exact he
+    have m2 : (e'.1, y) ∈ lm := by rw [← hey]; exact he'
+    have g1 := (K _ _ m1).1
+    have g2 := (K _ _ m2).1
+    have hk : e.1 = e'.1 := by rw [← g1, ← g2, hxy]
+    exact hg.functional _ m1 _ m2 hk
+  refine ⟨g, ?_, ?_⟩
+  · apply (List.perm_ext_iff_of_nodup ?_ ?_).2
+    · intro x
+      simp only [List.mem_filter, List.mem_map, Values.containsRef_eq_true]
+      constructor
+      · rintro ⟨⟨hx, e, he, hex⟩, hpass⟩
+        have hmem : (x, e.1) ∈ lm := (hsw x e.1).2 (by rw [← hex]; exact he)
+        refine ⟨e.1, ⟨⟨hg.vals (x, e.1) hmem, (x, e.1), hmem, rfl⟩, ?_⟩, (K x e.1 hmem).1⟩
+        rw [← D x e.1 hmem]; exact hpass
+      · rintro ⟨r, ⟨⟨hr, e, he, her⟩, hpass⟩, rfl⟩
+        have hmem : (e.1, r) ∈ lm := by rw [← her]; exact he
+        rw [(K e.1 r hmem).1]
+        refine ⟨⟨hg.keys (e.1, r) hmem, (r, e.1), (hsw e.1 r).1 hmem, rfl⟩, ?_⟩
+        rw [D e.1 r hmem]; exact hpass
+    · exact ((labelsOf_nodup pred).filter _).filter _
+    · apply nodup_map_on _ _ _ (((labelsOf_nodup ref).filter _).filter _)
+      intro x hx y hy
+      exact hinj x (List.mem_filter.1 (List.mem_filter.1 hx).1).2 y
+        (List.mem_filter.1 (List.mem_filter.1 hy).1).2
+  · intro r hr m hm
+    obtain ⟨e, he, her⟩ := (Values.containsRef_eq_true lm r).1
+      (List.mem_filter.1 (List.mem_filter.1 hr).1).2
+    have hmem : (e.1, r) ∈ lm := by rw [← her]; exact he
+    rw [(K e.1 r hmem).1]
+    exact (K e.1 r hmem).2 m hm
+
+/-- end to end, with the configuration hypotheses unbundled -/
+theorem pipeline_mirror_core (cfg : Config) (mc : MatcherCfg)
+    (hin : cfg.input = .UNMATCHED) (hmat : cfg.matcher = some mc) (hk : mc.kind = .naive false)
+    (hmm : mc.metric = .IOU ∨ mc.metric = .DSC) (ht : ∃ q, mc.thr = .exact q)
+    (hms : ∀ m ∈ cfg.evalMetrics, m = .IOU ∨ m = .DSC)
+    (bits : Nat) (s : List Nat)
+    (pred ref : Flat) (hlen : pred.length = ref.length) (hb : ∀ x ∈ pred ++ ref, x < 2 ^ 32 - 1)
+    (hp : labelsOf pred ≠ []) (hr : labelsOf ref ≠ [])
+    (hdet : C03.Determined Score.le mc.metric.decreasing mc.thr (scoredCands mc.metric ⟨s, pred⟩ ⟨s, ref⟩))
+    (out out' : PipeOut) (h : pipeline cfg bits ⟨s, pred⟩ ⟨s, ref⟩ = .ok out)
+    (h' : pipeline cfg bits ⟨s, ref⟩ ⟨s, pred⟩ = .ok out') :
+    out'.tp = out.tp ∧ out'.nRef = out.nPred ∧ out'.nPred = out.nRef ∧
+    ∀ m ∈ cfg.evalMetrics, ∀ vals vals', (m, vals) ∈ out.lists → (m, vals') ∈ out'.lists → vals.Perm vals' := by
+  have hb' := bounds_swap hb
+  obtain ⟨lm, hrun, _, _, _, htp, hlists⟩ :=
+    Values.pipeline_values cfg bits s pred ref mc hin hmat hlen hb hp hr out h
+  obtain ⟨lm', hrun', _, _, _, htp', hlists'⟩ :=
+    Values.pipeline_values cfg bits s ref pred mc hin hmat hlen.symm hb' hr hp out' h'
+  obtain ⟨hnp, hnr⟩ := nPred_core cfg mc hin hmat hk bits s pred ref hlen hb hp hr out h
+  obtain ⟨hnp', hnr'⟩ := nPred_core cfg mc hin hmat hk bits s ref pred hlen.symm hb' hr hp out' h'
+  have hsw := runMatcher_swap_bdd mc hk hmm ht s pred ref hlen hb hdet lm lm' hrun hrun'
+  have hg : Values.Good lm pred ref := Values.runMatcher_good mc ⟨s, pred⟩ ⟨s, ref⟩ hlen hb lm hrun
+  have hrefs : (lm.map (·.2)).Nodup := by
+    rw [runMatcher_naive mc false hk] at hrun
+    cases hrun
+    exact C03.injective Score.le mc.metric.decreasing mc.thr _
+  have hrefs' : (lm'.map (·.2)).Nodup := by
+    rw [runMatcher_naive mc false hk] at hrun'
+    cases hrun'
+    exact C03.injective Score.le mc.metric.decreasing mc.thr _
+  obtain ⟨g, hperm, hscore⟩ := passing_mirror s pred ref lm lm' cfg.evalMetrics hms cfg.decision
+    hg hrefs hrefs' hsw
+  refine ⟨?_, ?_, ?_, ?_⟩
+  · rw [htp, htp', hperm.length_eq, List.length_map]
+  · rw [hnr', hnp]
+  · rw [hnp', hnr]
+  · intro m hm vals vals' hv hv'
+    rw [hlists] at hv
+    rw [hlists'] at hv'
+    obtain ⟨m1, _, heq1⟩ := List.mem_map.1 hv
+    obtain ⟨m2, _, heq2⟩ := List.mem_map.1 hv'
+    simp only [Prod.mk.injEq] at heq1 heq2
+    obtain ⟨rfl, rfl⟩ := heq1
+    obtain ⟨rfl, rfl⟩ := heq2
+    refine ((hperm.map _).trans ?_).symm
+    rw [List.map_map]
+    apply List.Perm.of_eq
+    apply List.map_congr_left
+    intro r hr'
+    exact hscore r hr' _ hm
+
+end Mirror
 end Panoptica
